@@ -2,11 +2,12 @@
 # run every seeded change against the check of its own property; print one verdict line each
 cd /verif
 for d in seeded/*/; do
-  id=$(basename $d)
-  git -C /repo apply /verif/$d/patch.diff || { echo "$id: patch does not apply"; continue; }
-  ./check $id > /tmp/seed-$id.out 2>&1; rc=$?
-  v=$(grep -m1 "^VIOLATION" /tmp/seed-$id.out)
-  echo "$id rc=$rc $v"
+  name=$(basename $d); id=$(echo $name | cut -c1-3)
+  [ -f $d/patch.diff ] || continue
+  git -C /repo apply /verif/$d/patch.diff || { echo "$name: patch does not apply"; continue; }
+  GH_HANG_SECS=20 ./check $id > /tmp/seed-$name.out 2>&1; rc=$?
+  v=$(grep -m1 "^VIOLATION" /tmp/seed-$name.out | cut -c1-150)
+  echo "$name rc=$rc $v"
   git -C /repo checkout -- .
 done
 git -C /repo status --short | head -3
